@@ -15,9 +15,9 @@ import subprocess
 import sys
 
 CHECKS = {
-    "src/e3fp/fingerprint/fprint.py": ["C07", "C09", "C10", "C11", "C17", "C06"],
-    "src/e3fp/fingerprint/db.py": ["C05", "C08", "C16", "C17", "C07", "C09"],
-    "src/e3fp/fingerprint/fprinter.py": ["C02", "C01", "C03", "C04", "C12", "C18"],
+    "src/e3fp/fingerprint/fprint.py": ["C07", "C09", "C10", "C11", "C17", "C06", "C14"],
+    "src/e3fp/fingerprint/db.py": ["C05", "C08", "C16", "C17", "C07", "C09", "C06", "C15"],
+    "src/e3fp/fingerprint/fprinter.py": ["C02", "C01", "C03", "C04", "C12", "C18", "C07", "C17", "C14"],
     "src/e3fp/fingerprint/structs.py": ["C02", "C03", "C04", "C12"],
     "src/e3fp/fingerprint/array_ops.py": ["C02", "C01"],
     "src/e3fp/fingerprint/metrics/__init__.py": ["C06"],
